@@ -34,4 +34,6 @@ run N1 details/HashBucketOpen2N2.h "			return (bucketIndex + probe) & (bucketCou
 run P1 details/BucketUtility.h "			return (bucketIndex + 1) & (bucketCount - 1);	// linear probing" "			return (bucketIndex + 2) & (bucketCount - 1);	// linear probing"
 # Q1: pvAddGrow's growth decision accepts newCapacity == mCount (the count may then exceed the capacity by one) -- breaks grow_decision
 run Q1 HashSet.h "			if (newCapacity > mCount)" "			if (newCapacity >= mCount)"
+# R1: Open2N2 capacity policy above the number of slots (12/11 instead of 11/12) -- breaks calc_capacity_le_slots
+run R1 details/HashBucketOpen2N2.h "		return static_cast<size_t>(static_cast<double>(bucketCount * maxCount) / 12.0 * 11.0);" "		return static_cast<size_t>(static_cast<double>(bucketCount * maxCount) / 11.0 * 12.0);"
 python3 /verif/props/C12/regen_clean.py   # leave the clean translation in the shared coq directory
